@@ -108,6 +108,124 @@ def do_replay(ob, cex):
         devnull.close()
 
 
+def isolated_replay(ob, seq):
+    """run do_replay for each input of `seq`, in order, in a forked child of this process (which never replays anything
+    itself, so no replay sees state left behind by another); returns the result for the last input.  A replay that raises
+    is re-raised here as RuntimeError."""
+    import pickle
+    r_fd, w_fd = os.pipe()
+    pid = os.fork()
+    if pid == 0:
+        os.close(r_fd)
+        out = ("ok", None)
+        try:
+            for x in seq[:-1]:
+                try:
+                    do_replay(ob, x)
+                except Exception:
+                    pass
+            d = do_replay(ob, seq[-1])
+            out = ("ok", d if (d is None or isinstance(d, str)) else str(d))
+        except Exception as e:
+            out = ("exc", "%s: %s" % (type(e).__name__, str(e)[:600]))
+        except BaseException as e:
+            out = ("exc", "%s" % type(e).__name__)
+        try:
+            with os.fdopen(w_fd, "wb") as f:
+                pickle.dump(out, f)
+        finally:
+            os._exit(0)
+    os.close(w_fd)
+    with os.fdopen(r_fd, "rb") as f:
+        data = f.read()
+    os.waitpid(pid, 0)
+    if not data:
+        raise RuntimeError("replay process died")
+    kind, val = pickle.loads(data)
+    if kind == "exc":
+        raise RuntimeError(val)
+    return val
+
+
+def replay_with_history(ob, cex, max_primers=16):
+    """A counterexample found during symbolic execution that does not reproduce in isolation may depend on what the same
+    process did before (state kept between calls: the paths of one obligation run in one process).  Try one earlier call
+    of the same operation (the counterexample with one parameter moved to an end of its range, or the counterexample
+    itself) followed by the counterexample, each sequence in its own forked child.  Returns (primer, description) for the
+    first sequence that shows the violation on the real code, else None."""
+    primers = []
+    for name, rng in (ob.params or []):
+        if not (isinstance(rng, tuple) and len(rng) == 2 and name in cex):
+            continue
+        for v in rng:
+            if v != cex[name]:
+                pr = dict(cex)
+                pr[name] = v
+                if pr not in primers:
+                    primers.append(pr)
+    primers.append(dict(cex))
+    for pr in primers[:max_primers]:
+        try:
+            d = isolated_replay(ob, [pr, cex])
+        except RuntimeError:
+            d = None
+        if d:
+            return pr, d
+    return None
+
+
+def history_probe(ob, seed=0, max_seqs=80):
+    """CrossHair reported NotDeterministic for this obligation: re-executing the same path took different branches, i.e.
+    something kept state between executions.  Look for a concrete two-call sequence on the real code that shows it: inputs
+    a, b (b = a with one parameter changed) such that b alone satisfies the obligation and b after a does not."""
+    if not ob.params or ob.body is None:
+        return None
+    rnd = random.Random(seed)
+    names = [n for n, rng in ob.params if isinstance(rng, tuple) and len(rng) == 2]
+    ranges = dict((n, rng) for n, rng in ob.params if isinstance(rng, tuple) and len(rng) == 2)
+    if len(names) != len(ob.params):
+        return None
+
+    def pick(n):
+        lo, hi = ranges[n]
+        return rnd.choice([lo, hi, min(hi, lo + 1), rnd.randint(lo, hi)])
+
+    def ok(x):
+        try:
+            return ob.pre is None or bool(ob.pre(**x))
+        except Exception:
+            return False
+    bases = []
+    for _ in range(400):
+        x = dict((n, pick(n)) for n in names)
+        if ok(x) and x not in bases:
+            bases.append(x)
+        if len(bases) >= 12:
+            break
+    tried = 0
+    for a in bases:
+        for n in names:
+            for v in (ranges[n][0], ranges[n][1], pick(n)):
+                if v == a[n]:
+                    continue
+                b = dict(a)
+                b[n] = v
+                if not ok(b):
+                    continue
+                tried += 1
+                if tried > max_seqs:
+                    return None
+                try:
+                    if isolated_replay(ob, [b]):
+                        continue
+                    d = isolated_replay(ob, [a, b])
+                except RuntimeError:
+                    continue
+                if d:
+                    return a, b, d
+    return None
+
+
 def main():
     ap = argparse.ArgumentParser()
     ap.add_argument("prop", nargs="?")
@@ -133,6 +251,11 @@ def main():
         if ob is None:
             print("obligation %s no longer generated" % rec["obligation"])
             return HARNESS_ERROR
+        for pr in rec.get("history", []):
+            try:
+                do_replay(ob, _unjson(pr))
+            except Exception:
+                pass
         d = do_replay(ob, _unjson(rec["input"]))
         if d:
             print("REPRODUCED property=%s obligation=%s: %s" % (prop, ob.id, d))
@@ -174,7 +297,20 @@ def main():
     known_hits = []
     harness_errors = []
     replayed = 0
+    nd_probes = 0
+    nd_desc = None
     for ob, r in zip(obs, results):
+        history = []
+        if r["verdict"] in (runner.ERROR, runner.REFUTED) and r.get("cex") is None and "NotDeterministic" in (r["detail"] or ""):
+            if nd_probes < 6:       # (a state leak shows in many obligations at once: a few concrete witnesses are enough)
+                nd_probes += 1
+                h = history_probe(ob, seed)
+                if h is not None:
+                    r["verdict"] = runner.REFUTED
+                    r["cex"] = h[1]
+                    history = [h[0]]
+                    r["detail"] = "NotDeterministic under symbolic execution; concrete two-call witness found"
+                    nd_desc = "history-dependent: after the same operation on %r, %s (alone, this input gives the right result)" % (h[0], h[2])
         if r["verdict"] == runner.ERROR:
             harness_errors.append("%s: %s" % (ob.id, r["detail"]))
             continue
@@ -185,11 +321,16 @@ def main():
             harness_errors.append("%s: refuted without a realised counterexample: %s" % (ob.id, r["detail"]))
             continue
         try:
-            desc = do_replay(ob, cex)
+            desc = nd_desc if history else isolated_replay(ob, [cex])
         except Exception as e:
             harness_errors.append("%s: replay of %r failed: %s: %s" % (ob.id, cex, type(e).__name__, str(e)[:600]))
             continue
         replayed += 1
+        if not desc:
+            h = replay_with_history(ob, cex)
+            if h is not None:
+                history = [h[0]]
+                desc = "history-dependent: after the same operation on %r, %s (alone, this input gives the right result)" % (h[0], h[1])
         r["replay"] = desc
         if not desc:
             harness_errors.append("%s: counterexample %r did not reproduce on the real code (encoding/stub error): %s"
@@ -203,7 +344,8 @@ def main():
         rd = os.path.join(OUT, "replays", prop)
         os.makedirs(rd, exist_ok=True)
         blob = json.dumps({"property": prop, "obligation": ob.id, "tier": args.tier,
-                           "input": _jsonable(cex), "observed": desc, "skeleton": ob.skeleton}, indent=1, sort_keys=True)
+                           "input": _jsonable(cex), "history": [_jsonable(h) for h in history], "observed": desc,
+                           "skeleton": ob.skeleton}, indent=1, sort_keys=True)
         path = os.path.join(rd, hashlib.sha1(blob.encode()).hexdigest()[:12] + ".json")
         with open(path, "w") as f:
             f.write(blob)
